@@ -207,16 +207,14 @@ def run_property(prop, tier, seed, procs):
     failed = []       # (func, name, result)
     canary_bad = []
     canary_ok = 0
+    canaries = {}
     samples = []
     for r in results:
         func, name = r['name']
         kind = meta[(func, name)]['kind']
         solver_time += r['time_s']
         if kind == 'canary':
-            if r['verdict'] == 'unsat':
-                canary_bad.append((func, name))
-            else:
-                canary_ok += 1
+            canaries.setdefault(func, []).append((name, r['verdict']))
             continue
         total += 1
         if r['verdict'] == 'unsat':
@@ -226,6 +224,15 @@ def run_property(prop, tier, seed, procs):
                 samples.append({'obligation': name, 'function': func, 'kind': kind, 'verdict': 'unsat', 'solver': r['solver'], 'time_s': r['time_s']})
         else:
             failed.append((func, name, r))
+    for func, cs in canaries.items():
+        # vacuity: False must not follow from the precondition, and at least one normal exit must not be refutable
+        req = [n for n, v in cs if n.endswith('canary.requires') and v == 'unsat']
+        exits = [(n, v) for n, v in cs if 'canary.exit' in n]
+        if req:
+            canary_bad.append((func, req[0]))
+        if exits and all(v == 'unsat' for n, v in exits):
+            canary_bad.append((func, exits[0][0]))
+        canary_ok += sum(1 for n, v in cs if v != 'unsat')
     slowest = sorted([(r['time_s'], r['name'][1]) for r in results], reverse=True)[:5]
 
     # ---------------- native side: differential search on every target (short), longer where an obligation is open
